@@ -53,12 +53,12 @@ TIERS = {
     # PT: max tokens behind the prefix; Q: (max tokens, max prefixed tokens) of the pair set;
     # K: same for the KEEP and file families; ld_class: granularity of the GNU ld subset;
     # ld_cap: maximum number of GNU ld links of the main round (a cap that is hit is reported).
-    "quick": dict(L=5, PL=3, T=4, PT=3, Q=(1, 1), K=(2, 2), ld_class="window", ld_cap=1500,
-                  validate=40),
+    "quick": dict(L=5, PL=3, T=4, PT=3, Q=(1, 1), K=(2, 2), ld_cap=1800, validate=40,
+                  ld_class={"single": "set", "pair": "set", "keep": "set", "file": "set"}),
     # thin5: of the 59,049 five-token strings only those with at most two non-literal tokens are
     # kept (12,393); every shorter string and every prefixed string is kept.
-    "thorough": dict(L=6, PL=4, T=5, PT=4, Q=(2, 2), K=(3, 3), ld_class="fine4", ld_cap=6000,
-                     validate=100, thin5=2),
+    "thorough": dict(L=6, PL=4, T=5, PT=4, Q=(2, 1), K=(3, 3), ld_cap=9000, validate=100, thin5=2,
+                     ld_class={"single": "fine4", "pair": "set", "keep": "set", "file": "set"}),
 }
 
 # --------------------------------------------------------------------------------------------
@@ -120,9 +120,25 @@ def window_class(toks):
     return "".join(head) + "/" + "".join(sorted(tail)) + f"/{len(toks)}"
 
 
+def set_class(toks):
+    """Kind of the first token, set of kinds, number of tokens, and where escapes sit relative to
+    the wildcards (GNU ld 2.40 compares the literal head and tail of a pattern bytewise and hands
+    only the middle to fnmatch, so an escape means different things in the three places)."""
+    ks = [KIND[t] for t in toks]
+    wild = [i for i, k in enumerate(ks) if k not in "LE"]
+    esc = set()
+    for i, k in enumerate(ks):
+        if k == "E":
+            esc.add("only" if not wild else "pre" if i < wild[0] else
+                    "post" if i > wild[-1] else "mid")
+    return ks[0] + "/" + "".join(sorted(set(ks))) + f"/{len(toks)}/" + "+".join(sorted(esc))
+
+
 def pclass(toks, mode):
     if mode == "fine" or (mode == "fine4" and len(toks) <= 4):
         return sig(toks)
+    if mode == "set":
+        return "s:" + set_class(toks)
     return "w:" + window_class(toks)
 
 
@@ -342,8 +358,8 @@ def make_members(t, names):
     return members
 
 
-def cell_class(m, mode):
-    return (m["fam"], m["fp"], tuple(pclass(t, mode) for t in m["toks"]))
+def cell_class(m, modes):
+    return (m["fam"], m["fp"], tuple(pclass(t, modes[m["fam"]]) for t in m["toks"]))
 
 
 # --------------------------------------------------------------------------------------------
@@ -553,8 +569,9 @@ def main():
 
         def judge():
             # classes in which GNU ld contradicted fnmatch on some name / rejected some script
-            divergent, rejecting = set(), set()
+            divergent, rejecting, covered = set(), set(), set()
             for (i, sinkname), r in LD.items():
+                covered.add(cell_class(members[i], t["ld_class"]))
                 if r[0] != 0:
                     rejecting.add(cell_class(members[i], t["ld_class"]))
                 elif decided_mask(i, r) != full[i]:
@@ -567,6 +584,8 @@ def main():
                 if r is not None:
                     accepted = r[0] == 0
                     dec = decided_mask(i, r)
+                elif cc not in covered:
+                    accepted, dec = False, 0      # GNU ld cap hit: class without any GNU ld run
                 else:
                     accepted = cc not in rejecting
                     dec = 0 if (cc in divergent or not accepted) else full[i]
@@ -697,7 +716,7 @@ def main():
         "gnu_ld_cells": len(cells),
         "gnu_ld_cap_hit": capped,
         "gnu_ld_subset_rule": f"one member per (family, file pattern, pattern class "
-                              f"[{t['ld_class']}], wild outcome) cell, plus the replay member of "
+                              f"{t['ld_class']}, wild outcome) cell, plus the replay member of "
                               "every key with the identical script",
         "pattern_classes_where_gnu_ld_contradicts_fnmatch": len(divergent),
         "sink_validation_members": len(vsub),
